@@ -157,6 +157,9 @@ func Obs(label string, v any) {
 	mu.Unlock()
 }
 
+// IsSymbolic reports whether s has bytes that are symbolic under the executor (natively: never).
+func IsSymbolic(s string) bool { return false }
+
 // IsRuntime reports whether a recovered panic value is a runtime fault.
 func IsRuntime(r any) bool { _, ok := r.(runtime.Error); return ok }
 
